@@ -1,6 +1,9 @@
 package simrt
 
-import "unsafe"
+import (
+	"fmt"
+	"unsafe"
+)
 
 // Generic ABA detector. Every atomic word has a version that is bumped by each
 // successful write. A goroutine remembers, per word, the version at which it
@@ -47,6 +50,9 @@ func NoteCAS(g *G, p unsafe.Pointer, old uint64, ok bool, changes bool) {
 		if rec, seen := g.seen[a]; seen && rec.val == old && rec.ver != s.vers[a] {
 			s.ABAs = append(s.ABAs, ABAEvent{Addr: a, G: g.id, Step: s.steps})
 			s.Counters["aba.cas"]++
+			if s.cfg.Trace {
+				s.trace = append(s.trace, fmt.Sprintf("%6d %10s   ABA event: CAS on %#x by g%d succeeded although the word was rewritten since it loaded the expected value", s.steps, s.Now(), a, g.id))
+			}
 			name, ok := s.abaWatch[a]
 			if !ok && s.OnABA != nil {
 				name = s.OnABA(a)
